@@ -8,9 +8,9 @@ From JP Require Import Bytes Json Text Strings Den Pointer ImplV5 ImplMerge.
 
 (* nodes reuse ImplV5.node; in NDoc the key list is unused (always []) *)
 
-Record opts4 := mkOpts4 { g_neg : bool; g_limit : Z }.
+Record opts4 := mkOpts4 { g_neg : bool; g_limit : Z; g_nullsz : option Z }.
 
-Definition o5 (g : opts4) : opts := mkOpts (g_neg g) (g_limit g) false false true.
+Definition o5 (g : opts4) : opts := mkOpts (g_neg g) (g_limit g) false false true (g_nullsz g).
 
 Definition obj_of (ms : list (bytes * tjson)) : list (bytes * node) := build_obj ms [].
 
@@ -175,9 +175,9 @@ Definition op_value4 (op : operation) : option node :=
 
 Record state4 := mkState4 { r4 : con4; acc4 : Z }.
 
-Definition deep_copy4 (n : node) : node * Z :=
+Definition deep_copy4 (g : opts4) (n : node) : node * Z :=
   match n with
-  | NNil => (NNil, 0%Z)
+  | NNil => (NNil, match g_nullsz g with Some z => z | None => 0%Z end)
   | _ => let t := render4 n in (NRaw (escape_tree true t), zlen (print true t))
   end.
 
@@ -258,7 +258,7 @@ Definition step4 (g : opts4) (st : state4) (op : operation) : res state4 :=
                        | (Some _, c2) =>
                            lift4 (find4 g c2 from (fun c' key => (con4_get g c' key, c'))) st
                                  (fun v _ =>
-                                    let (cp, sz) := deep_copy4 v in
+                                    let (cp, sz) := deep_copy4 g v in
                                     let acc := (acc4 st + sz)%Z in
                                     if (0 <? g_limit g)%Z && (g_limit g <? acc)%Z then Err (ECopyLimit (g_limit g) acc)
                                     else lift4 (find4 g c2 path (fun c' key => upd (con4_add g c' key cp) c' tt)) st
